@@ -24,7 +24,7 @@
     checks (comment, charset, collation, engine, auto_increment), ENFORCED /
     NO INHERIT of checks, MariaDB/TiDB flavours, display widths, partitions,
     operator classes, storage parameters, hex / exponent / non-decimal numeric
-    default literals. *)
+    default literals and numbers beyond int64 / float64 precision. *)
 From Coq Require Import List NArith Bool Arith.
 From Atlas Require Import Base.Bytes Diff.Schema Diff.DiffModel Diff.DiffSqlite.
 Import ListNotations.
@@ -115,13 +115,19 @@ Definition canon_eqb (a b : bool * str * str) : bool :=
 
 Definition quote_space : list N := [ch_squote; ch_space].
 
-(** [equalIntValues] on the fragment: plain decimal integers, or texts that are no numbers at all *)
+(** [equalIntValues] on the fragment: plain decimal literals (a fraction is cut off, as
+    int64(ParseFloat) does), or texts that are no numbers at all *)
+Definition int_canon (s : str) : option (bool * str) :=
+  match canon true s with
+  | Some (neg, i, _) => Some (if Nat.eqb (length i) 0 then false else neg, i)
+  | None => None
+  end.
 Definition equal_int_values (x1 x2 : str) : bool :=
   let a := to_lower (trim quote_space x1) in
   let b := to_lower (trim quote_space x2) in
   if str_eqb a b then true
-  else match canon false a, canon false b with
-       | Some u, Some v => canon_eqb u v
+  else match int_canon a, int_canon b with
+       | Some (n1, i1), Some (n2, i2) => Bool.eqb n1 n2 && str_eqb i1 i2
        | _, _ => false
        end.
 
